@@ -652,6 +652,8 @@ def project(schema, fmt):
 
     for d in s["defs"]:
         fix(d["t"])
+    if fmt == "openapi":
+        _break_required_cycles(s)      # a nullable flag a $ref cannot carry was dropped: the cycle it broke is back
     s["fmt"] = fmt
     return s
 
